@@ -16,6 +16,8 @@ POOL = {
     "if_interrupt_else_tail": "def g(c):\n    if c:\n        return\n    else:\n        print('else of return', c)\ndef h(c):\n    for i in range(2):\n        if c:\n            break\n        else:\n            print('else of break', i)\n    else:\n        if c:\n            pass\n        else:\n            print('loop else', c)\nfor n in range(4):\n    if n % 2:\n        continue\n    else:\n        print('even', n)\nk = 0\nwhile k < 3:\n    k += 1\n    if k == 2:\n        continue\n    elif k == 3:\n        pass\n    else:\n        print('first', k)\ng(1), g(0), h(1), h(0)\n",
     "falsy_branch_values": "g = 5\ndef f(c):\n    global g\n    if c:\n        g = 0\n    elif c is None:\n        g = ''\n    else:\n        g = 7\n    return g\nclass K:\n    n = None\n    z = 0\n    e = []\n    m = n\n    y = z\n    d = e\n    if z == 0:\n        w: int\n        w = 0\n    else:\n        w = 1\nn = 'global n'\nz = 'global z'\nprint(f(1), f(None), f(0), K.m, K.y, K.d, K.w)\n",
     "surrogates_and_odd_text": "s = '\\ud800\\udfff\\udc00\\ud7ff\\ue000'\nt = 'a\\x00b\\x7f\\x85\\u2028\\ufeff'\nprint(len(s), len(t), [hex(ord(c)) for c in s + t])\n",
+    # user functions / classes named like CPython's implicit scopes (hosts before 3.12 tell the scopes apart by name)
+    "scope_like_names": "def listcomp(a):\n    return [a + e for e in range(2)]\ndef genexpr():\n    v = 3\n    def setcomp(b):\n        nonlocal v\n        v += b\n        return {v for _ in range(1)}\n    return sum(e for e in setcomp(1)), v\nclass dictcomp:\n    def lambda_(self, k):\n        return {k: e for e in range(2)}\n    def genexpr(self):\n        return list(e for e in (1, 2))\ndef top(x):\n    def listcomp():\n        return [x for _ in range(1)]\n    return listcomp()\nprint(listcomp(1), genexpr(), dictcomp().lambda_(1), dictcomp().genexpr(), top(5))\n",
     "elif_chain": "for x in range(4):\n    if x == 0:\n        print('a')\n    elif x == 1:\n        print('b')\n    elif x == 2:\n        pass\n    else:\n        print('d')\n",
     "while_loop": "i = 0\nwhile i < 3:\n    print(i)\n    i += 1\n",
     "while_break_else": "i = 0\nwhile i < 5:\n    i += 1\n    if i == 3:\n        break\nelse:\n    print('no break')\nprint(i)\n",
